@@ -23,6 +23,7 @@ import (
 	"sync"
 
 	"github.com/olareg/olareg/internal/verif/vh"
+	"github.com/olareg/olareg/internal/verif/vsync"
 )
 
 var algs = []string{"sha256", "sha384", "sha512"}
@@ -691,6 +692,9 @@ func interleave(r *vh.Run, i int) {
 
 func main() {
 	r := vh.Start()
+	if strings.HasPrefix(r.Variant(), "vsync") {
+		vsync.SetJitter(true, uint64(r.Seed)*0x9e3779b97f4a7c15+1)
+	}
 	if os.Getenv("VERIF_FOCUS") == "interleave" {
 		n := r.N(200, 6000)
 		vh.Parallel(n, 16, func(i int) { interleave(r, i) })
